@@ -245,3 +245,74 @@ def replay_broadcast(index, ob, seed, saved=None):
             if out != want2:
                 return _r(True, input={"value": val, "dimension": [d0, d1], "cell": [ri, ci]}, observed=out, expected=want2, function="update_cell")
     return _r(False)
+
+
+# ---- C18 -------------------------------------------------------------------------------------------
+def replay_exports(index, ob, seed, saved=None):
+    """Fault injection on the real write_* methods with converter stubs; FS state observed before/after."""
+    import os, tempfile, shutil, polars as pl
+    from pathlib import Path
+    rtf = index.real_module("rtflite")
+    enc = index.real_module("rtflite.encode")
+    base = tempfile.mkdtemp(prefix="verif_c18_")
+    created = []
+    real_td = tempfile.TemporaryDirectory
+
+    class Rec(real_td):
+        def __init__(self, *a, **k):
+            super().__init__(*a, **k)
+            created.append(self.name)
+    try:
+        enc.tempfile.TemporaryDirectory = Rec
+
+        class Conv:
+            def __init__(self, mode):
+                self.mode = mode
+
+            def convert(self, input_files, output_dir, format, overwrite):
+                if self.mode == "fail_before":
+                    raise RuntimeError("conversion failed")
+                out = Path(output_dir) / (Path(input_files).stem + "." + format)
+                out.write_text("converted:" + Path(input_files).read_text())
+                if self.mode == "fail_after":
+                    raise RuntimeError("conversion failed late")
+                if self.mode == "malformed":
+                    return [out]
+                return out
+        doc = rtf.RTFDocument(df=pl.DataFrame({"a": [1, 2]}))
+        good = doc.rtf_encode()
+        for meth, ext in (("write_rtf", "rtf"), ("write_docx", "docx"), ("write_html", "html"), ("write_pdf", "pdf")):
+            for scenario in ("encode_fails", "fail_before", "fail_after", "malformed", "ok"):
+                if meth == "write_rtf" and scenario not in ("encode_fails", "ok"):
+                    continue
+                for pre in (None, "OLD CONTENT"):
+                    d = os.path.join(base, f"{meth}_{scenario}_{'pre' if pre else 'new'}", "sub")
+                    target = os.path.join(d, f"out.{ext}")
+                    if pre is not None:
+                        os.makedirs(d, exist_ok=True)
+                        Path(target).write_text(pre)
+                    doc2 = rtf.RTFDocument(df=pl.DataFrame({"a": [1, 2]}))
+                    if scenario == "encode_fails":
+                        object.__setattr__(doc2, "rtf_encode", lambda: (_ for _ in ()).throw(ValueError("encode failed")))
+                    del created[:]
+                    kw = {} if meth == "write_rtf" else {"converter": Conv(scenario)}
+                    raised = None
+                    try:
+                        getattr(doc2, meth)(target, **kw)
+                    except Exception as e:
+                        raised = type(e).__name__
+                    leftovers = [t for t in created if os.path.exists(t)]
+                    now = Path(target).read_text() if os.path.exists(target) else None
+                    listing = sorted(os.listdir(d)) if os.path.isdir(d) else []
+                    if scenario == "ok":
+                        want = good if meth == "write_rtf" else "converted:" + good
+                        okk = raised is None and now == want and not leftovers and listing == [f"out.{ext}"]
+                    else:
+                        okk = raised is not None and now == pre and not leftovers and listing == ([f"out.{ext}"] if pre else [])
+                    if not okk:
+                        return _r(True, input={"method": meth, "scenario": scenario, "preexisting": pre}, observed={"raised": raised, "target": now,
+                                  "leftover_temp_dirs": leftovers, "listing": listing})
+        return _r(False)
+    finally:
+        enc.tempfile.TemporaryDirectory = real_td
+        shutil.rmtree(base, ignore_errors=True)
